@@ -27,8 +27,8 @@ class QuitDomain(Domain):
         name = call_name(node)
         if name == "self.client_pool.destroy":
             return [("ok", NONE, state.set("#destroyed", state.get("#destroyed", 0) + 1))]
-        if name == "self.client_pool.get_and_release":
-            return [("ok", TOP, state)]
+        if name in ("self.client_pool.get_and_release", "self.client_pool.get"):
+            return [("ok", TOP, state)]  # (a get() that fails has checked nothing out: no connection to discard)
         return [("ok", TOP, state), ("exc", Exc(ORD, None, node.lineno), state)]
 
     def with_enter(self, item, value, state):
@@ -39,16 +39,26 @@ def run(chk):
     prog = chk.prog
     pooled = prog.cls("PooledClient")
     # ---------------- R1
-    r1 = chk.rule("C09.R1", "every get_and_release bracket of PooledClient passes the constant destroy_on_fail=True")
+    r1 = chk.rule("C09.R1", "every get_and_release bracket of PooledClient passes the constant destroy_on_fail=True (a method that checks its client out itself gives it back on every exit, destroying it after a failure)")
     from . import pooled as pooled_an
 
     n = 0
+    holds = pooled_an.analyse_holds(prog)
     for name, runs in sorted(pooled_an.analyse(prog).items()):
         m = pooled.methods[name]
         brs = set()
         for r in runs:
             if r.state.get("#calls", ()) or r.state.get("#brackets", ()):
                 brs |= set(r.state.get("#brackets", ()))
+        if not brs and name in holds:
+            # a hand-made bracket: client_pool.get() and release / destroy by the method itself
+            probs = pooled_an.hold_problems(holds[name], ("ok", "raise"))
+            for key, msg in probs:
+                r1.fail("PooledClient.%s:%s" % (name, key), "PooledClient.%s checks its client out with client_pool.get(): %s" % (name, msg), fn=m, node=m.node)
+            if not probs:
+                n += 1
+                r1.ok("PooledClient.%s: checks the client out itself; every normal and ordinary-exception exit gives it back, a failed one with destroy()" % name)
+            continue
         if not brs:
             r1.fail("PooledClient.%s:no-bracket" % name, "PooledClient.%s never enters the pool bracket" % name, fn=m)
             continue
@@ -246,7 +256,7 @@ def run(chk):
         for s, v, t in outs.of(kind):
             n_q += 1
             r6.expect(s.get("#destroyed") == 1, "quit(): %s exit passes client_pool.destroy once" % kind, "PooledClient.quit:%s-exit-without-destroy" % kind, "PooledClient.quit can exit (%s) having called client_pool.destroy %d times: a connection the server is closing stays in the pool" % (kind, s.get("#destroyed")), fn=q, witness=fmt_trace(t))
-    r6.floor("exits of PooledClient.quit", n_q, 2)
+    r6.floor("exits of PooledClient.quit", n_q, 1)
     # ---------------- R8 the books under every order of calls
     r8 = chk.rule("C09.R8", "sequential histories: under every order of get / release / destroy / clear / clock ticks (objects released twice, after destroy, after clear) nothing is listed twice, at most max_size objects are listed, every object is listed or closed exactly once, get() hands out only unheld, open, fresh objects and creates only when it must")
     from . import poolhist
